@@ -113,7 +113,7 @@ type wrappedTransform struct {
 }
 
 func (w *wrappedTransform) EndStoreContext(s string) error {
-	return w.EndStoreContext(s)
+	return w.t.EndStoreContext(s)
 }
 
 type wrappedSink struct {
